@@ -29,13 +29,21 @@ ctr_ghost(void)
  * in/out buffers of `len` bytes (len <= CTR_MAXLEN is assumed by the caller).  mode 0: two objects;
  * mode 1: in == out (in-place); mode 2: two disjoint ranges of one object, out after in; 3: out before in.
  */
+#ifdef BUFMODE	/* one group instance per aliasing mode ("matrix") */
+#define CTR_BUFMODE_DECL const unsigned bufmode = BUFMODE
+#else
+#define CTR_BUFMODE_DECL IN(unsigned, bufmode)
+#endif
 #define CTR_MK_BUFS(in, out, len) \
-	IN(unsigned, bufmode); \
+	CTR_BUFMODE_DECL; \
 	uint8_t * in##_obj = malloc(bufmode >= 2 ? 2 * (len) : (len)); \
 	uint8_t * out##_obj = malloc(len); \
 	__CPROVER_assume(in##_obj != NULL && out##_obj != NULL && bufmode <= 3); \
 	const uint8_t * in = (bufmode == 3) ? in##_obj + (len) : in##_obj; \
 	uint8_t * out = (bufmode == 0) ? out##_obj : (bufmode == 1) ? in##_obj : \
 	    (bufmode == 2) ? in##_obj + (len) : in##_obj
+
+/* ghost arguments naming the buffers of the current public call */
+#define CTR_CALL(in, out, len) do { g_ctr_in = (in); g_ctr_out = (out); g_ctr_len = (len); } while (0)
 
 #endif
